@@ -181,6 +181,10 @@ def mon_c02(ex, info, col):
                         if b[1] != 0.0:
                             out.append(V("C02", "C02:FINISHED-remaining-not-reported-0", ex,
                                          {"task": tn, "t": t, "remaining": b[1]}))
+                        # "dependencies permitting": judged by the links as they were DECLARED (finish-to-finish / start-to-finish inputs), on the state after this update
+                        if not finish_deps_hold(info, tn, phs["updated"][1]):
+                            out.append(V("C02", "C02:FINISHED-although-a-declared-finish-dependency-does-not-permit-it", ex,
+                                         {"task": tn, "t": t, "preds": [(pn, k, S.TSTATE_NAME.get(phs["updated"][1]["tasks"][pn][0])) for pn, k in info.preds[tn]]}))
                     if a[0] == S.T_WORKING and a[1] < EPS and b[0] != S.T_FINISHED:
                         col.checks["c02.finish-next-step"] += 1
                         # judged on the state after this update: finishing is propagated along FF/SF links within one update
@@ -450,7 +454,8 @@ def mon_c06(ex, info, col):
                         col.checks["c06.auto"] += 1
                         if tv[0] == S.T_READY:
                             out.append(V("C06", "C06:automatic-task-waits-in-READY", ex, {"task": tn, "t": t}))
-                free_w = [w for w, (s, a) in sa["workers"].items() if s == S.R_FREE and not a and not res_absent(ex, info, w, t)]
+                # idle = holds nothing although nothing in the DECLARED calendars keeps him away (a worker shown ABSENCE at a working step of his is idle, too)
+                free_w = [w for w, (s, a) in sa["workers"].items() if s in (S.R_FREE, S.R_ABSENCE) and not a and not res_absent(ex, info, w, t)]
                 for w in free_w:
                     for tn in info.tnames:
                         tv = tasks[tn]
